@@ -729,7 +729,7 @@ def _run_sim(case):
 # --------------------------------------------------------------------------------------------- the check
 class C19(Prop):
     id = "C19"
-    lean_modules = ["VivModel.Props.C19"]
+    lean_modules = ["VivModel.Props.C19", "VivModel.Props.C19Src"]
     build_targets = ["VivModel.Model.Artifact", "VivModel.Model.Proto"]
     driver = "C19"
     technique = ("Lean 4 proof (invariant over all operation sequences by induction, refinement to a key -> data map, "
